@@ -14,8 +14,9 @@ import (
 // C14 — Bits is the exact 256-bit binary expansion.
 
 type c14Case struct {
-	S     string `json:"s"`
-	Class string `json:"class"`
+	S     string          `json:"s"`
+	Class string          `json:"class"`
+	Move  *mon.ScalarMove `json:"move,omitempty"` // the object first holds Move.From, is observed, then is driven to S
 }
 
 func init() {
@@ -24,12 +25,15 @@ func init() {
 		Flavour: "plain",
 		Rule: "cases: every 2^i, every n-1-2^i, 2^255|2^i, the structured list mod n, Montgomery-structured values, PRNG scalars (sparse, dense, limb patterns, bit 255 forced). " +
 			"Oracle: entry i of Bits() must be exactly 0 or 1 and equal bit i of OS2IP(Encode(s)) (and of the materialised integer) for all 256 positions; sum of bits[i]*2^i must equal the value. " +
-			"Every position must have been observed both as 0 and as 1. non-trivial = value > 1; distinct by value.",
+			"Every position must have been observed both as 0 and as 1. " +
+			"History cases: the same *Scalar object first holds another value and is observed (Bits, Encode), is then driven to the target value through each mutator of the API " +
+			"(Set, Decode, UnmarshalBinary, DecodeHex, CSelect with conditions 0/1/high-bit, Add, Subtract, Multiply, SetUInt64, Zero, One, MinusOne, Random with scripted entropy, Invert, Pow, Square, nil arguments, a rejected Decode), and Bits is judged again; " +
+			"plus a decoy object of equal value observed and then mutated before the judged call. non-trivial = value > 1; distinct by (value, history).",
 		NewCase:  func() any { return &c14Case{} },
 		Generate: c14Generate,
 		Run:      c14Run,
 		Require: func(string) map[string]int64 {
-			return map[string]int64{"bit255=1": 100, "pow2": 256, "scalars": 1000, "bits:position-seen-as-0-or-1": 512}
+			return map[string]int64{"bit255=1": 100, "pow2": 256, "scalars": 1000, "history-cases": 400, "via:cselect1": 10, "via:random": 10, "via:decode": 10, "bits:position-seen-as-0-or-1": 512}
 		},
 	})
 }
@@ -56,7 +60,22 @@ func c14Generate(c *mon.Ctx) {
 		emit(v.X, v.Class)
 	}
 
+	// history cases: every mutator, several times
+	hr := c.SharedRng("moves")
+
+	for rep := 0; rep < 20; rep++ {
+		for _, via := range mon.ScalarVias {
+			mv := mon.PlanScalarMove(via, hr)
+			c.Structured(func() any { return &c14Case{S: mv.To, Class: "history", Move: &mv} })
+		}
+	}
+
 	c.Random(c.N(50000, 5000000), func(r *gen.Rng) any {
+		if r.Intn(10) == 0 {
+			mv := mon.PlanScalarMove(mon.ScalarVias[r.Intn(len(mon.ScalarVias))], r)
+			return &c14Case{S: mv.To, Class: "history", Move: &mv}
+		}
+
 		v := gen.Draw(r, n)
 		return &c14Case{S: fmt.Sprintf("%x", v.X), Class: v.Class}
 	})
@@ -66,6 +85,30 @@ func c14Run(c *mon.Ctx, csAny any) {
 	cs := csAny.(*c14Case)
 	v := mon.BigH(cs.S)
 	s := mon.Scal(v)
+
+	if cs.Move != nil {
+		c.Count("history-cases")
+		c.Count("via:" + cs.Move.Via)
+
+		s = mon.Scal(mon.BigH(cs.Move.From))
+		_ = s.Bits() // observe the old value, so that anything memoised is filled
+		_ = s.Encode()
+
+		if pan, pv := mon.Call(func() { mon.ApplyScalarMove(s, *cs.Move) }); pan {
+			if m, ok := pv.(string); ok && len(m) > 8 && m[:8] == "harness:" {
+				panic(m)
+			}
+
+			c.Fail(fmt.Sprintf("mutator %s panicked: %v", cs.Move.Via, pv), "bits-history-panic", nil)
+
+			return
+		}
+
+		// decoy: another object with the target value, observed and then changed
+		d := mon.Scal(v)
+		_ = d.Bits()
+		d.Add(mon.Scal(big.NewInt(1)))
+	}
 
 	c.Eval(1)
 	c.Count("scalars")
@@ -101,7 +144,12 @@ func c14Run(c *mon.Ctx, csAny any) {
 		}
 
 		if uint(bits[i]) != enc.Bit(i) {
-			c.Fail(fmt.Sprintf("Bits()[%d] = %d but bit %d of Encode(s) is %d (s=%s)", i, bits[i], i, enc.Bit(i), cs.S), fmt.Sprintf("bits-wrong-position-%d", i), nil)
+			hist := ""
+			if cs.Move != nil {
+				hist = fmt.Sprintf(" after the object moved from %s to this value via %s", cs.Move.From, cs.Move.Via)
+			}
+
+			c.Fail(fmt.Sprintf("Bits()[%d] = %d but bit %d of Encode(s) is %d (s=%s)%s", i, bits[i], i, enc.Bit(i), cs.S, hist), fmt.Sprintf("bits-wrong-position-%d", i), nil)
 			return
 		}
 
@@ -121,7 +169,7 @@ func c14Run(c *mon.Ctx, csAny any) {
 	}
 
 	if v.BitLen() > 1 {
-		c.Seen(cs.S)
+		c.Seen(cs.S, cs.Move)
 
 		if c.WantSample() && v.Bit(255) == 1 {
 			on := []int{}
